@@ -101,8 +101,10 @@ OPSEM = {
     ("arithmetic.int", "imul"): lambda a, b: (a * b, NO),
     ("arithmetic.int", "ineg"): lambda a: (-a, NO),
     ("arithmetic.int", "iabs"): lambda a: (z3.If(a < 0, -a, a), NO),
-    ("arithmetic.int", "is_to_u"): lambda a: (z3.If(a < 0, -a, a), NO),
-    ("arithmetic.int", "iu_to_s"): lambda a: (a, NO),
+    # checked conversions (hugr spec; the selene lowering panics with "is_to_u called on negative value" /
+    # "iu_to_s argument out of bounds"): the value is kept, a value the target cannot hold is a panic
+    ("arithmetic.int", "is_to_u"): lambda a: (a, a < 0),
+    ("arithmetic.int", "iu_to_s"): lambda a: (a, a < 0),
     ("arithmetic.int", "iand"): lambda a, b: (a & b, NO),
     ("arithmetic.int", "ior"): lambda a, b: (a | b, NO),
     ("arithmetic.int", "ixor"): lambda a, b: (a ^ b, NO),
@@ -154,7 +156,7 @@ OPSEM = {
 }
 OPSEM_TEXT = {
     "iadd/isub/imul/ineg": "modulo 2^64 (bvadd/bvsub/bvmul/bvneg)",
-    "iabs,is_to_u": "absolute value of the signed reading, modulo 2^64",
+    "iabs": "absolute value of the signed reading, modulo 2^64", "is_to_u,iu_to_s": "the same value; panic if the target reading cannot hold it (negative signed source / unsigned source >= 2^63)",
     "ishl/ishr": "shift by the UNSIGNED reading of the 2nd input; ishr fills with zeros (logical); shifts >= 64 give 0",
     "i{lt,le,gt,ge}_{s,u}": "signed / unsigned comparison", "ieq/ine": "bit equality",
     "idivmod_u": "unsigned q,r with q*m+r=n, 0<=r<m; m=0 panics",
